@@ -315,19 +315,21 @@ def run_ob(ob, gen_dir, work, meta):
     for blk in js:
         if isinstance(blk, dict) and 'result' in blk:
             results = blk['result']
-        if isinstance(blk, dict) and blk.get('messageType') == 'ERROR':
+        if isinstance(blk, dict) and blk.get('messageType') == 'ERROR' and not res['reason']:
             res['reason'] = 'cbmc error: ' + blk.get('messageText', '')[:600]
     if results is None:
         if not res['reason']:
             res['reason'] = 'cbmc gave no result block (rc=%s) %s' % (rc, se[-300:])
         return res
-    res['reason'] = ''
+    if 'out of memory' not in res['reason']:
+        res['reason'] = ''
     if 'ignoring' in so and 'quantifier' in so:
         res['reason'] = 'quantifier ignored by the back end'
         return res
     n = 0
     failed = []
     unwind_fail = []
+    unknown = ''
     for r in results:
         desc = r.get('description', '')
         if desc == 'WV_CANARY' or 'WV_CANARY' in desc:
@@ -342,7 +344,7 @@ def run_ob(ob, gen_dir, work, meta):
             else:
                 failed.append(item)
         elif r['status'] not in ('SUCCESS',):
-            res['reason'] = 'status %s for %s' % (r['status'], r.get('property'))
+            unknown = 'status %s for %s' % (r['status'], r.get('property'))
     res['obligations'] = n
     if ob.canary and res['canary'] is not True:
         res['status'] = 'undecided'
@@ -356,6 +358,9 @@ def run_ob(ob, gen_dir, work, meta):
     if res['reason']:
         return res
     res['failed'] = failed
+    if not failed and unknown:
+        res['reason'] = unknown
+        return res
     res['status'] = 'failed' if failed else 'discharged'
     return res
 
